@@ -253,7 +253,8 @@ def _get_subcircuits(
 
             if oper_type != 'NOT':
                 circuit_size += 1
-            is_output: bool = node in outputs_set
+            # a gate nobody reads is kept as well: it may read inner gates of the cone
+            is_output: bool = node in outputs_set or not users
             if not is_output:
                 for user in users:
                     if user not in cut_nodes[cut]:
